@@ -68,7 +68,7 @@ func d37(c *Ctx) CaseResult {
 }
 
 func (c05) Rule() string {
-	return "L2.insert: 40 generated sequences of executorInsertObject calls per case (random targets and paths that mostly follow the target's structure, and executor-style message sets in parents-first and in deliberately wrong orders) compared with the Lean stitching model Ins.apply (value or index of the first rejected message); then fixed fan-out queries and generated queries over fixed and random federations, optionally with 1-5 injected failures (addressed by join id so that they do not depend on the schedule; several calls failing alike and others differently); each case is executed once unscheduled and then under 11 (quick) / 33 (thorough) controlled schedules: every service call and every executor goroutine about to publish its result parks at a gate (under the starve-collector policy also the collector, each time it has received a result) and a controller releases one parked goroutine at a time by policy {random, LIFO, FIFO, deepest path first, shallowest first, calls first, publishers first, starve the collector so that the result channel stays full, hold goroutines that are about to start a dependent step}; gates: service calls, the publish site, the spawn site and (when starving it) the collector; list fan-out up to 18; the response data and the multiset of error messages must be identical in all runs, and the error messages of the same request sent through the HTTP handler must be that multiset; the harness is built with -race and a reported race kills the worker (attributed to the case); non-trivial = at least 3 service calls; distinct = distinct (federation, query, faults)"
+	return "L2.insert: 40 generated sequences of executorInsertObject calls per case (random targets and paths that mostly follow the target's structure, and executor-style message sets in parents-first and in deliberately wrong orders) compared with the Lean stitching model Ins.apply (value or index of the first rejected message); then fixed fan-out queries and generated queries over fixed and random federations, optionally with 1-5 injected failures (addressed by join id so that they do not depend on the schedule; several calls failing alike and others differently); each case is executed once unscheduled and then under 11 (quick) / 33 (thorough) controlled schedules: every service call and every executor goroutine about to publish its result parks at a gate (under the starve-collector policy also the collector, each time it has received a result) and a controller releases one parked goroutine at a time by policy {random, LIFO, FIFO, deepest path first, shallowest first, calls first, publishers first, starve the collector so that the result channel stays full, hold goroutines that are about to start a dependent step}; gates: service calls, the publish site, the spawn site and (when starving it) the collector; list fan-out up to 18; the response data and the multiset of error messages must be identical in all runs, and the error messages of the same request sent through the HTTP handler must be that multiset; the harness is built with -race and a reported race kills the worker (attributed to the case); non-trivial = at least 3 service calls; distinct = distinct (federation, query, faults); one case in twelve with a list of 33-257 entries; one case in five a net-twin case (default network queryers over an in-process transport, optionally cached plans and 2-3 concurrent requests, no request middlewares) under the race detector; the last case is the canonical replay of KF-D37 in a child process"
 }
 
 func errMultiset(err error) []string {
